@@ -56,7 +56,17 @@ func genConfig(job *simkit.Job, rng *simkit.RNG, idx int64) (Config, []Action, b
 	cfg.HeldShut = rng.Chance(1, 2)
 	cfg.LateClose = rng.Chance(1, 3)
 	cfg.Burst = rng.Chance(1, 2)
+	if rng.Chance(1, 3) {
+		// a listener that has been up for a long time: counters near the places where encodings change
+		cfg.Served = []uint64{9, 99, 255, 65535, 55295, 57343, 1114111, 1<<31 - 1, 1<<32 - 1, 1<<63 - 1, 1<<64 - 3}[rng.Intn(11)]
+	}
 	cfg.Listeners = rng.Intn(3)
+	cfg.LazyListener = cfg.Listeners > 0 && rng.Chance(1, 2)
+	if cfg.LazyListener {
+		// events go out to the listeners in map order: with one of them
+		// blocking, what the others have seen would depend on that order
+		cfg.Listeners = 1
+	}
 	cfg.MaxSteps = rng.Range(15, 120)
 	cfg.MaxAttempts = rng.Range(2, 40)
 	cfg.ReadMax = []int{1, 7, 64, 2048, 5000}[rng.Intn(5)]
@@ -252,6 +262,9 @@ func (s *sim) generate() (Action, bool) {
 			add(Action{K: "start_in", B: []byte(id), S: k, P: p, N: f}, 6)
 		}
 	}
+	if s.cfg.LazyListener {
+		add(Action{K: "drain_events"}, 3)
+	}
 	if s.cfg.LateClose {
 		for _, at := range s.atts {
 			if at.returned && !at.closedTrans && !at.closeDue {
@@ -285,6 +298,10 @@ func (s *sim) generate() (Action, bool) {
 			}
 			add(Action{K: "read_done", A: at.id, B: d, S: e}, W.ReadErr)
 			add(Action{K: "read_done", A: at.id, N: 1}, W.ReadZero)
+			if W.ReadZero > 0 {
+				// many empty reads in a row, and over the life of one stream
+				add(Action{K: "read_done", A: at.id, N: r.Range(20, 150)}, 1)
+			}
 		}
 		if at.w != nil && at.w.parked != nil {
 			if at.w.parked.kind == "W" {
